@@ -46,6 +46,7 @@ def scan_assumes(groups):
 def write(ctx, mod, groups, wall, nviol):
     per = []
     unb_total = unb_ok = b_total = b_ok = 0
+    clause_total = clause_ok = 0
     solver_time = 0.0
     samples = []
     for g in groups:
@@ -58,6 +59,9 @@ def write(ctx, mod, groups, wall, nviol):
         else:
             unb_total += len(obl)
             unb_ok += ok
+            cl = [o for o in obl if 'postcondition' in o['name'] or 'assertion' in o['name']]
+            clause_total += len(cl)
+            clause_ok += sum(1 for o in cl if o['status'] == 'SUCCESS')
         solver_time += g.result.get('seconds', 0) or 0
         per.append({
             'group': '%s/%s%s' % (ctx.pid, g.name, '@big-endian-host' if g.big_endian else ''),
@@ -88,6 +92,7 @@ def write(ctx, mod, groups, wall, nviol):
     cov = {
         'obligations': unb_total,
         'discharged': unb_ok,
+        'contract_clause_obligations': {'total': clause_total, 'discharged': clause_ok, 'note': 'the ensures clauses and lemma assertions among the obligations; the remainder are frame (assigns), pointer/bounds/overflow safety checks and the checks goto-instrument --dfcc generates for its own instrumentation'},
         'checker_cmd': 'cd /verif && ./check %s --tier %s   (per group: goto-cc --function <h>; goto-instrument --dfcc <h> '
                        '--enforce-contract <f> [--replace-call-with-contract <g>] [--apply-loop-contracts]; cbmc <checks> '
                        '[portfolio: minisat | cadical | --cvc5 | --z3])' % (ctx.pid, ctx.tier),
